@@ -11,7 +11,7 @@ use celestia_types::ExtendedHeader;
 use cid::Cid;
 use futures::FutureExt;
 use h_common::{Args, Summary, TraceWriter};
-use lumina_node::store::{InMemoryStore, RedbStore, Store, StoreError, StoreInsertionError};
+use lumina_node::store::{EitherStore, InMemoryStore, RedbStore, Store, StoreError, StoreInsertionError};
 use multihash::Multihash;
 use rand::rngs::StdRng;
 use rand::seq::SliceRandom;
@@ -818,8 +818,16 @@ pub fn record(args: &Args) {
     let mut meta_disagreements = vec![];
     rt.block_on(async {
         for run in 0..runs {
+            // every other run goes through `EitherStore` (the type the node binary uses to choose a back-end at run
+            // time): Left(mem) / Right(redb) must answer exactly as the wrapped store does
+            let either = run % 2 == 1;
             let mem = InMemoryStore::new();
-            let (r1, m1, g1) = history(&mem, "mem", seed, run, ops, len, &mut tw, &mut sum).await;
+            let (r1, m1, g1) = if either {
+                let e: EitherStore<InMemoryStore, RedbStore> = EitherStore::Left(mem);
+                history(&e, "mem", seed, run, ops, len, &mut tw, &mut sum).await
+            } else {
+                history(&mem, "mem", seed, run, ops, len, &mut tw, &mut sum).await
+            };
             let redb = if file_backed {
                 let p = format!("{}/store-{run}.redb", args.opt("redb-file").unwrap());
                 let _ = std::fs::remove_file(&p);
@@ -827,7 +835,12 @@ pub fn record(args: &Args) {
             } else {
                 RedbStore::in_memory().await.unwrap()
             };
-            let (r2, m2, g2) = history(&redb, "redb", seed, run, ops, len, &mut tw, &mut sum).await;
+            let (r2, m2, g2) = if either {
+                let e: EitherStore<InMemoryStore, RedbStore> = EitherStore::Right(redb);
+                history(&e, "redb", seed, run, ops, len, &mut tw, &mut sum).await
+            } else {
+                history(&redb, "redb", seed, run, ops, len, &mut tw, &mut sum).await
+            };
             let upto = r1.iter().position(|x| *x == 777).unwrap_or(r1.len()).min(r2.iter().position(|x| *x == 777).unwrap_or(r2.len()));
             let same_upto = (0..g1.len().min(g2.len())).find(|i| g1[*i] != g2[*i]).unwrap_or(g1.len().min(g2.len()));
             if let Some(i) = (0..same_upto.min(m1.len()).min(m2.len())).find(|i| m1[*i] != m2[*i]) {
@@ -850,6 +863,7 @@ pub fn record(args: &Args) {
     let n = tw.finish();
     sum.set("events", json!(n));
     sum.set("runs", json!(runs * 2));
+    sum.set("runs_through_either_store", json!(runs / 2 * 2));
     sum.set("backend_result_disagreements", json!(disagreements));
     sum.set("backend_metadata_disagreements", json!(meta_disagreements));
     sum.write(args.opt("summary").unwrap_or("/dev/stdout"));
